@@ -316,6 +316,45 @@ func checkC07(c *Check, p *Program) {
 		cl, okC := clampInterval(p, dt)
 		c.Decide(okA && okC && cl.within(acc, 0), "C07.accept", dptName(dt)+" clamp within the accepted range", p.Pos(dt.Pack.Pos()), "encoder clamps to "+fivString(cl)+", decoder accepts "+fivString(acc), fmt.Sprintf("the encoder can emit values in %s, the type's own decoder accepts only %s: an in-range or saturated encoding is rejected", fivString(cl), fivString(acc)))
 	}
+	// 11.001: an invalid date is encoded as the all-zero payload; the decoder must accept that encoding - its
+	// special case for day = month = year = 0 replaces all three fields by a real date
+	if dt, ok := byKey["11.001"]; ok {
+		fields := map[string]int64{}
+		nStores := map[string]int{}
+		var blk *ssa.BasicBlock
+		instrsOf(dt.Unpack, func(in ssa.Instruction) {
+			st, isSt := in.(*ssa.Store)
+			if !isSt {
+				return
+			}
+			f := fieldOfAddr(st.Addr)
+			k, isK := constInt(st.Val)
+			if f == nil || !isK {
+				return
+			}
+			zeroFacts := 0
+			for _, fc := range factsAt(st.Block()) {
+				if fc.Op == token.EQL {
+					if kk, isKK := constInt(fc.Y); isKK && kk == 0 && loadedField(fc.X) != nil {
+						zeroFacts++
+					}
+				}
+			}
+			if zeroFacts < 3 {
+				return
+			}
+			blk = st.Block()
+			fields[f.Name()] = k
+			nStores[f.Name()]++
+		})
+		okZ := blk != nil && len(fields) == 3 && nStores["Year"] == 1 && nStores["Month"] == 1 && nStores["Day"] == 1 &&
+			fields["Month"] >= 1 && fields["Month"] <= 12 && fields["Day"] >= 1 && fields["Day"] <= 28 && fields["Year"] >= 0 && fields["Year"] <= 99
+		pos := p.Pos(dt.Unpack.Pos())
+		if blk != nil {
+			pos = p.Pos(blk.Instrs[0].Pos())
+		}
+		c.Decide(okZ, "C07.accept", "dpt.DPT_11001 the all-zero encoding of an invalid date decodes to a real date", pos, fmt.Sprintf("year, month and day are each replaced once: %d-%d-%d", fields["Year"], fields["Month"], fields["Day"]), fmt.Sprintf("the special case for the all-zero payload does not set year, month and day to a real date (stores: %v): the encoding Pack emits for an invalid date is rejected by the type's own decoder", nStores))
+	}
 	for _, k := range []string{"10.001", "11.001"} {
 		dt, ok := byKey[k]
 		if !ok {
